@@ -2,13 +2,14 @@ from .. import facts
 from ..common import Report, finish
 from .. import flow
 from ..common import load_table
-from ..rules import gate, flags, c15, c06, docpanic
+from ..rules import gate, flags, c15, c06, docpanic, iterbound
 
 RULE = ("the `is_some` flag of every inversion (inv, inv_mod, inv_odd_mod, inv_mod2k, invert and their _vartime twins, on "
         "Uint, Int, BoxedUint, the three Montgomery forms and the inverter objects) depends, in the label-flow summary, on "
         "every operand: the value and the modulus / inverter; c10.docpanic: a documented panic of an inversion / gcd routine "
         "exists in release builds; c10.dbgwidth: in the boxed inversion / gcd routines and the boxed safegcd helpers, the size "
-        "of a heap-allocated operand is never related to another parameter by a debug assertion only")
+        "of a heap-allocated operand is never related to another parameter by a debug assertion only; c10.iterbound: the divstep "
+        "iteration bound is computed from the bit lengths of both operands (or of neither), never of one operand alone")
 INV = {"inv", "inv_mod", "inv_odd_mod", "inv_mod2k"}
 
 
@@ -20,6 +21,7 @@ def run(tier, t0):
         flags.run(f, rep, cfg, lambda b: c15.family(b.get("name")) in INV | {"gcd"})
         docpanic.run(f, rep, cfg, lambda b: c15.family(b.get("name")) in INV | {"gcd"}, "c10.docpanic",
                      counter="documented_panics_inv_gcd")
+        iterbound.run(f, rep, cfg)
         eng = flow.Engine(f, flow.Policy())
         eng.run_all(collect=False)
         rev = {e["key"]: e["reason"] for e in load_table("c10.toml").get("reviewed_dbgwidth", [])}
@@ -36,6 +38,7 @@ def run(tier, t0):
     rep.floor("inversion_operations", 36)
     rep.floor("validity_flag_calls", 4)
     rep.floor("boxed_inv_gcd_bodies", 8)
+    rep.floor("divstep_iteration_bounds", 2)
     return finish(rep, tier, t0,
                   explanation="one structural necessary condition of C10: whether an inverse exists depends on both the value "
                               "and the modulus (for a fixed modulus some values are invertible and some are not, and vice "
